@@ -231,6 +231,7 @@ class Engine:
         self.gassumed = 0
         self.lemmas = {}
         self.opts = opts or {}
+        self.memo = {}            # decisions already taken on this path, by term id
         self.open_guards = []     # guard conditions that could not be refuted (C08)
         self.notes = []           # free-form records left by monitors
         self.deadline = self.opts.get('deadline')
@@ -351,11 +352,19 @@ class Engine:
             return False
         if z3.is_true(cond):
             return True
+        hit = self.memo.get(cond.get_id())
+        if hit is not None:
+            return hit[0]
+        d = self._guard(cond, sh, what)
+        self.memo[cond.get_id()] = (d, cond)
+        return d
+
+    def _guard(self, cond, sh, what):
         i = len(self.decisions)
         if i < len(self.prefix):
-            return self.branch(cond, sh)
+            return self._branch(cond, sh)
         if any(self.alive[k] and ok and v for k, (v, ok) in enumerate(sh)):
-            return self.branch(cond, sh)
+            return self._branch(cond, sh)
         if self.check_slice(cond) == 'unsat' or self.check_slice(abstract(cond)) == 'unsat':
             self.decisions.append((False, False))
             self.gsaved += 1
@@ -375,7 +384,7 @@ class Engine:
             self.open_guards.append((what, cond, r))
             self.decisions.append((False, False))
             return False
-        return self.branch(cond, sh)
+        return self._branch(cond, sh)
 
     def branch(self, cond, sh=None):
         cond = z3.simplify(cond)
@@ -383,6 +392,16 @@ class Engine:
             return True
         if z3.is_false(cond):
             return False
+        hit = self.memo.get(cond.get_id())
+        if hit is not None:
+            return hit[0]
+        d = self._branch(cond, sh)
+        self.memo[cond.get_id()] = (d, cond)
+        n = z3.simplify(z3.Not(cond))
+        self.memo[n.get_id()] = (not d, n)
+        return d
+
+    def _branch(self, cond, sh=None):
         i = len(self.decisions)
         if i < len(self.prefix):
             d, rec = self.prefix[i]
@@ -492,6 +511,11 @@ def abstract(e, limit=25):
     return go(e)
 
 
+def som(t):
+    """sum-of-monomials normal form with sorted sums (syntactic canonicalisation)"""
+    return z3.simplify(t, som=True, sort_sums=True)
+
+
 def is_zero(d):
     return z3.is_rational_value(d) and d.numerator_as_long() == 0
 
@@ -501,7 +525,7 @@ def hashcons(kind, term, sh):
     lst = ENG.cons.setdefault(kind, [])
     for (t2, sh2) in lst:
         if close(sh, sh2):
-            if is_zero(z3.simplify(term - t2, som=True)):
+            if is_zero(som(term - t2)):
                 return t2
     lst.append((term, sh))
     return term
@@ -548,7 +572,8 @@ def _cmp(f, a, b):
 
 
 def close(a, b):
-    return all((x == x and y == y and abs(x - y) <= 1e-9 * max(1.0, abs(x), abs(y))) for x, y in zip(a, b))
+    """shadow filter for congruence candidates; a NaN shadow (unknown value) never excludes a candidate"""
+    return all((x != x or y != y or abs(x - y) <= 1e-9 * max(1.0, abs(x), abs(y))) for x, y in zip(a, b))
 
 
 class SymBool:
@@ -754,7 +779,7 @@ NEG_SH = {'exp': lambda v: 1 / v, 'cdf': lambda v: 1 - v, 'pdf': lambda v: v}
 
 
 def same(a, b, neg=False):
-    d = z3.simplify((a + b) if neg else (a - b), som=True)
+    d = som((a + b) if neg else (a - b))
     if z3.is_rational_value(d):
         return d.numerator_as_long() == 0
     return ENG.valid((a + b == 0) if neg else (a == b), timeout=ENG.opts.get('cong_timeout', 1500))
@@ -762,7 +787,7 @@ def same(a, b, neg=False):
 
 def uf_app(name, argsym, mk_axioms, rf=None):
     lst = ENG.apps.setdefault(name, [])
-    arg = z3.simplify(argsym.t, som=True)
+    arg = som(argsym.t)
     ash = argsym.s
     for (a2, r2, sh2, rsh2, rf2) in lst:
         if close(ash, sh2):
@@ -799,6 +824,29 @@ def uf_app(name, argsym, mk_axioms, rf=None):
     mk_axioms(arg, res, [(a, r) for (a, r, _, _, _) in lst])
     ENG.lemmas[res.decl().name()] += (len(ENG.axioms),)
     lst.append((arg, res, ash, rsh, rf))
+    return Sym(res, s=rsh, f=rf)
+
+
+def uf_app_n(name, args, consts=(), rf=TOP, axioms=None, shadow=None):
+    """multi-argument uninterpreted application (gamma callback): Ackermannised, congruence by SOM/solver equality"""
+    lst = ENG.apps.setdefault(name, [])
+    terms = [som(lift(a)) for a in args]
+    shs = [shadow_of(a) for a in args]
+    rsh = _sf(shadow, *shs) if shadow is not None else tuple(float('nan') for _ in ENG.env)
+    for (c2, t2, s2, r2) in lst:
+        if c2 != tuple(consts):
+            continue
+        if all(close(x, y) for x, y in zip(shs, s2)) and all(same(x, y) for x, y in zip(terms, t2)):
+            ENG.reuse += 1
+            return Sym(r2, s=rsh, f=rf)
+    res = ENG.newvar(name)
+    ENG.lemmas[res.decl().name()] = (res, rf, len(ENG.axioms), 10 ** 6)
+    for fml in f_formulas(res, rf):
+        ENG.add_axiom(fml, 0)
+    if axioms:
+        axioms(res)
+    ENG.lemmas[res.decl().name()] += (len(ENG.axioms),)
+    lst.append((tuple(consts), terms, shs, res))
     return Sym(res, s=rsh, f=rf)
 
 
@@ -856,6 +904,18 @@ class SymMath:
                 raise ValueError('math domain error')
             return uf_app('sqrt', x, ax_sqrt)
         return math.sqrt(x)
+
+    # erf/erfc of a symbolic argument belong to the Phi family: erfc(z) = 2*Phi(-sqrt(2) z).
+    # sqrt(2) is the same float constant the code divides by, so that  -(-x/c)*c  is x after normalisation.
+    def erfc(self, z):
+        if isinstance(z, Sym):
+            return 2 * uf_app('cdf', -(z * math.sqrt(2.0)), ax_cdf)
+        return math.erfc(z)
+
+    def erf(self, z):
+        if isinstance(z, Sym):
+            return 2 * uf_app('cdf', z * math.sqrt(2.0), ax_cdf) - 1
+        return math.erf(z)
 
     def exp(self, x):
         if isinstance(x, Sym):
@@ -920,7 +980,7 @@ class StubNormal:
     def cdf(self, x):
         if isinstance(x, Sym):
             return uf_app('cdf', x, ax_cdf)
-        return _N.cdf(x)
+        return _cdf_true(x)
 
     def pdf(self, x):
         if isinstance(x, Sym):
@@ -946,6 +1006,8 @@ def install():
     import importlib
     C = importlib.import_module('openskill.models.weng_lin.common')
     C._normal = StubNormal()
+    if hasattr(C, 'math'):
+        C.math = SymMath()
     for name in MODEL_MODULES:
         m = importlib.import_module('openskill.models.weng_lin.' + name)
         m.math = SymMath()
@@ -957,17 +1019,20 @@ def install():
 # --------------------------------------------------------------------------
 # exploration driver
 # --------------------------------------------------------------------------
-def explore(run, base, draw, seed=None, max_paths=20000, opts=None, keep_exc=True, on_path=None):
-    """Run `run()` on every feasible path.  Returns ([(outcome, engine)], stats).
-    outcome = ('ok', value) | ('exc', exception)."""
+def iter_paths(run, base, draw, seed=None, max_paths=20000, opts=None, stats=None):
+    """Generator over the feasible paths of `run()`: yields (outcome, engine) with
+    outcome = ('ok', value) | ('exc', exception).  The caller may stop early."""
     global ENG
     if seed is None:
-        seed = int(os.environ.get('VERIF_SEED', '0'))
+        seed = int(os.environ.get('VERIF_SEED', '0') or 0)
     rng = random.Random(seed)
     env = [draw(rng) for _ in range(K)] if draw else []
-    results = []
     work = [[]]
-    stats = dict(nq=0, tq=0.0, paths=0, aborted=0, exc=0, saved=0, unknown=0, gsaved=0, gassumed=0, reuse=0, fresh=0)
+    if stats is None:
+        stats = {}
+    for k in ('nq', 'tq', 'paths', 'aborted', 'exc', 'saved', 'unknown', 'gsaved', 'gassumed', 'reuse', 'fresh'):
+        stats.setdefault(k, 0)
+    n = 0
     while work:
         prefix = work.pop()
         ENG = Engine(base, prefix, env, opts)
@@ -980,15 +1045,26 @@ def explore(run, base, draw, seed=None, max_paths=20000, opts=None, keep_exc=Tru
         except Exception as e:  # noqa: BLE001 - exceptions of the code under test are path outcomes
             out = ('exc', e)
             stats['exc'] += 1
-        results.append((out, ENG))
         work.extend(ENG.worklist)
         for k in ('nq', 'tq', 'saved', 'unknown', 'gsaved', 'gassumed', 'reuse', 'fresh'):
             stats[k] += getattr(ENG, k)
         stats['paths'] += 1
-        if on_path is not None:
-            on_path(out, ENG)
-        if len(results) > max_paths:
+        n += 1
+        eng = ENG
+        yield out, eng
+        # queries made by the caller on this path's engine after the snapshot above
+        if n > max_paths:
             raise RuntimeError('too many paths')
+
+
+def explore(run, base, draw, seed=None, max_paths=20000, opts=None, keep_exc=True, on_path=None):
+    """Run `run()` on every feasible path.  Returns ([(outcome, engine)], stats)."""
+    stats = {}
+    results = []
+    for out, eng in iter_paths(run, base, draw, seed, max_paths, opts, stats):
+        results.append((out, eng))
+        if on_path is not None:
+            on_path(out, eng)
     return results, stats
 
 
